@@ -47,7 +47,7 @@ pub fn run(obligation: &str) -> i32 {
     if ["C02.format_member_or_option", "C02.format_sequence_member", "C02.format_choice_option", "C02.boxed_type", "C02.format_default_methods"].iter().any(|p| obligation.starts_with(p)) { gen_members(&mut rep); gen_default_methods(&mut rep); return rep.finish("GEN_members"); }
     if obligation.starts_with("C14.generate_enumerated") || obligation.starts_with("C14.enumerated_template") { gen_blocks(&mut rep); return rep.finish("GEN_blocks"); }
     if obligation.starts_with("C14.format_enum_members") || obligation.starts_with("C05.format_enum_members") { gen_enum_members(&mut rep); return rep.finish("GEN_enum_members"); }
-    if ["C05.generate_", "C03.generate_", "C05.member_extension", "C05.option_extension", "C02.generate_sequence_or_set_set_annotation", "C02.sequence_or_set_of_template", "C03.common_annotations"].iter().any(|p| obligation.starts_with(p)) { gen_blocks(&mut rep); gen_collections(&mut rep); return rep.finish("GEN_blocks"); }
+    if ["C05.generate_", "C03.generate_", "C05.member_extension", "C05.option_extension", "C02.generate_sequence_or_set_set_annotation", "C02.sequence_or_set_of_template", "C03.common_annotations", "C04.generate_collection_annotations", "C02.generate_collection_member_type"].iter().any(|p| obligation.starts_with(p)) { gen_blocks(&mut rep); gen_collections(&mut rep); return rep.finish("GEN_blocks"); }
     if ["C03.format_tag", "C06.width_to_tokens", "C04.format_range_annotations", "lemma.GEN_emission"].iter().any(|p| obligation.starts_with(p)) { gen_emission(&mut rep); return rep.finish("GEN_emission"); }
     if obligation.starts_with("C03.") { c03_apply_tagenv(&mut rep); return rep.finish("C03_apply_tagenv"); }
     if ["C02.link_components_of", "C05.link_components_of", "C02.has_components_of", "C05.lemma.", "C02.lemma."].iter().any(|p| obligation.starts_with(p)) { c02_components_of(&mut rep); return rep.finish("C02_components_of"); }
@@ -378,6 +378,19 @@ fn gen_collections(rep: &mut Rep) {
         let d = || format!("module_default={env:?} T ::= {} OF <element kind {elem}> -> {}", if is_set { "SET" } else { "SEQUENCE" }, match &got { Ok(t) => nows(t), Err(e) => format!("ERR {e}") });
         let ok = matches!(&got, Ok(t) if nows(t).contains(&format!("pubstructT(pub{}<", if is_set { "SetOf" } else { "SequenceOf" })));
         rep.check("C02.sequence_or_set_of_template.set_of_is_a_SetOf_and_sequence_of_a_SequenceOf_of_the_member_type", ok, d);
+        let want_member = if elem == 1 { "<Other>);" } else { "<AnonymousT>);" };
+        rep.check(if elem == 1 { "C02.generate_collection_member_type.a_referenced_element_type_is_named_by_its_qualified_name" } else { "C02.generate_collection_member_type.any_other_element_type_is_the_hoisted_Anonymous_item_of_this_type" }, matches!(&got, Ok(t) if nows(t).contains(want_member)), d);
+        // size constraint and tag on the collection itself
+        for (lo, hi, ext) in [(0i128, 5i128, false), (2, 2, false), (1, 4, true)] { for tagged in [false, true] {
+            let c = Constraint::Subtype(ElementSetSpecs { set: ElementOrSetOperation::Element(SubtypeElements::SizeConstraint(Box::new(ElementOrSetOperation::Element(SubtypeElements::ValueRange { min: Some(ASN1Value::Integer(lo)), max: Some(ASN1Value::Integer(hi)), extensible: false })))), extensible: ext });
+            let of2 = SequenceOrSetOf { constraints: vec![c], element_tag: None, element_type: Box::new(ASN1Type::Boolean(Boolean { constraints: vec![] })), is_recursive: false };
+            let ty2 = if is_set { ASN1Type::SetOf(of2) } else { ASN1Type::SequenceOf(of2) };
+            let got2 = hook_generate_type(env, false, &ty2, if tagged { Some(AsnTag { environment: TaggingEnvironment::Explicit, tag_class: TagClass::Application, id: 6 }) } else { None });
+            let want = format!("#[rasn(delegate,size(\"{}\"{}){})]pubstructT(", if lo == hi { format!("{lo}") } else { format!("{lo}..={hi}") }, if ext { ",extensible" } else { "" }, if tagged { ",tag(explicit(application,6))" } else { "" });
+            let d2 = || format!("module_default={env:?} T ::= {}{} (SIZE({lo}..{hi}){}) OF BOOLEAN -> {}", if tagged { "[APPLICATION 6] EXPLICIT " } else { "" }, if is_set { "SET" } else { "SEQUENCE" }, if ext { ", ..." } else { "" }, match &got2 { Ok(t) => nows(t), Err(e) => format!("ERR {e}") });
+            rep.check("C04.generate_collection_annotations.fails_only_when_the_size_annotation_fails", got2.is_ok(), d2);
+            rep.check("C04.generate_collection_annotations.delegate_the_size_annotation_of_the_collections_own_constraints_and_the_assignments_own_tag", matches!(&got2, Ok(t) if nows(t).contains(&want)), d2);
+        } }
     } } }
 }
 
